@@ -311,11 +311,14 @@ class FnA:
         if key in self._rd_cache:
             return self._rd_cache[key]
         res = []
+        entry = False       # does the value the local has on entry to the function (a parameter) reach as well?
         # inside the block first
         ds = [d for p, d in self._defs_in_block(l, bi) if p < pos]
         if ds:
             res = [ds[-1]]
         else:
+            if bi == 0:
+                entry = True
             seen = set()
             st = list(self.pred.get(bi, []))
             while st:
@@ -328,9 +331,18 @@ class FnA:
                     if dd[-1][1] not in res:
                         res.append(dd[-1][1])
                 else:
+                    if x == 0:
+                        entry = True
                     st.extend(self.pred.get(x, []))
         self._rd_cache[key] = res
+        if not hasattr(self, "_rd_entry"):
+            self._rd_entry = {}
+        self._rd_entry[key] = entry
         return res
+
+    def entry_value_reaches(self, l, bi, pos):
+        self.reaching_defs(l, bi, pos)
+        return self._rd_entry.get((l, bi, pos), False)
 
     # ---------------------------------------------------------- origin terms
     def upvar_name(self, place):
@@ -478,6 +490,10 @@ class FnA:
                 terms.append(("resume",))
             else:
                 terms.append(("unknown",))
+        if 1 <= l <= body.arg_count and self.entry_value_reaches(l, bi, pos):
+            # a parameter that the body also assigns (`mut length: u64`): its incoming value is one
+            # of the alternatives wherever no assignment intervenes
+            terms.append(("param", body.local_name(l) or ("arg%d" % l)))
         t = mkjoin(terms)
         # a term cut off by the depth limit is only as deep as the query that happened to reach it
         # first: caching it would make the answer to a shallow query depend on evaluation order
